@@ -21,7 +21,7 @@ func H_C06_SMB_STRING() {
 	s.SetBufferFormat(format)
 	enc, err := s.Marshal()
 	vCheck(err == nil, "SMB_STRING/marshal-ok")
-	var d SMB_STRING
+	d := SMB_STRING{BufferFormat: vU8("prev.format"), Length: USHORT(vU16("prev.length")), Buffer: vBytes("prev.buffer", 3)} // a reused receiver
 	n, err := d.Unmarshal(withSuffix(enc))
 	vCheck(err == nil, "SMB_STRING/unmarshal-ok")
 	vCheck(n == len(enc), "SMB_STRING/consumed")
